@@ -186,6 +186,18 @@ def handbuilt_specs():
                 ps = [I(join if off in (j1, j2) else kk)]
             res.append((off, name, ps))
         out.append((f"both_arms_jump_to_join_{n_else}_{n_if}", rs(res)))
+    # a ladder of tests whose targets are consecutive ops of the straight-line code that follows them (the first target is the
+    # fall-through of the last test): `if (a) {@l; t0} elseif not (b) {jump @l}` shapes, no compiler lays code out like this
+    for k in (2, 3):
+        for shift in (0, 1):
+            for samevar in (True, False):
+                ops = [(i, "Branch", [V if samevar else ("const", f"$V{i}"), I(i + 1), I(k + i + shift)]) for i in range(k)]
+                n = k
+                for j in range(k + shift):
+                    ops.append((n, f"t{j}", [I(j)]))
+                    n += 1
+                ops.append((n, "End", []))
+                out.append((f"test_ladder_{k}_{shift}_{int(samevar)}", rs(ops)))
     return out
 
 
